@@ -119,6 +119,16 @@ def build(ctx, incdir=None):
                     sc = dict(META[mk], includes=incs, items=[parr("p0", t, shape), parr("p1", "float", (1, 2)), st("Sgate", [V("p0"), N("0.0")], [], [N("1")])] + calls + [st("MeasureHomodyne", [], [("phi", V("p1"))])])
                     scripts.append((mk, sc))
                     fam["tdm program with includes"] += 1
+    # element values: the data of a p-array come back exactly - many-digit doubles, values at and around pi multiples /
+    # e / 1/3 / powers of ten, and the ends of the double range, as float and as complex p-arrays, 1xN and 2xN
+    from bbv.model import alphabet as A_
+    vals = A_.near_special_floats() + ["0.30000000000000004", "123456789.123456789", "1e-300", "1.7976931348623157e308", "5e-324", "2.2250738585072014e-308", "0.1", "1e22", "9007199254740993.0"]
+    for k in range(0, len(vals), 6):
+        chunk = (vals[k:k + 6] + vals[:6])[:6]
+        rowf = [N(v) if i % 2 == 0 else U("-", N(v)) for i, v in enumerate(chunk)]
+        rowc = [N("%s%s%sj" % (chunk[i], "+" if i % 2 else "-", chunk[i + 1])) for i in range(0, 6, 2)]
+        for arr in (("arr", "float", "p0", None, [rowf]), ("arr", "float", "p0", (2, 3), [rowf[:3], rowf[3:]]), ("arr", "complex", "p0", None, [rowc])):
+            add("p-array element values", ["tdm"], [arr, ("arr", "int", "p1", None, [[N("1"), N("2")]]), st("Sgate", [V("p0"), N("0.0")], [], [N("1")]), st("MeasureHomodyne", [], [("phi", V("p1"))])])
     add("no p-arrays", allm, [st("G", [N("1")], [])])
     add("no p-arrays, parameter", allm, [st("G", [P("a")], [])])
     return scripts, fam
